@@ -195,9 +195,28 @@ def expected_request(spec_chain, address, method, a):
     return address + path, tags, auth
 
 
+class _StrSub(str):
+    """a text body of a str subclass (an xml / sql text type, a str-mixin enum member ...): still a text"""
+
+
+class _BytesSub(bytes):
+    pass
+
+
+class _StrEnum(str, __import__("enum").Enum):
+    PING = "ping \u00e9"
+    EMPTY = ""
+
+
 def decode_data(d):
     if d is None:
         return None
+    if "ss" in d:
+        return _StrSub(d["ss"])
+    if "bs" in d:
+        return _BytesSub(d["bs"].encode("utf-8"))
+    if "se" in d:
+        return list(_StrEnum)[d["se"] % 2]
     if "s" in d:
         return d["s"]
     if "b" in d:
@@ -544,6 +563,8 @@ def st_reqargs(with_method=True):
         "params": st.none() | st.dictionaries(st.text("pq &", min_size=1, max_size=3), pval, max_size=3),
         "data": st.one_of(st.none(), st.text("dé{}\"", max_size=6).map(lambda s: {"s": s}),
                           st.text("bé", max_size=5).map(lambda s: {"b": s}),
+                          st.text("sé\"", max_size=5).map(lambda s: {"ss": s}), st.text("bé", max_size=4).map(lambda s: {"bs": s}),
+                          st.integers(0, 1).map(lambda i: {"se": i}),
                           jval.filter(lambda j: not isinstance(j, str) and j is not None).map(lambda j: {"j": j})),
         "headers": st.none() | hdr,
         "raw": st.sampled_from([False, False, True]),
